@@ -12,7 +12,7 @@ LEVEL = "exploration"
 TECHNIQUE = "icontract post-conditions (power, shape, finite) on the four real propagators + linearity relation monitor"
 LEVEL_TEXT = ("Unitarity and linearity are algebraic identities of the sampled operators, so they are checked to FFT rounding on "
               "randomised and hostile fields (spikes at corners, checkerboards, constants), grid sizes 2..128, wavelengths, spacings and "
-              "distances of both signs over many decades, magnifications 0.1..10 including exactly 1 and 1 +- 1e-9. Exploration: "
+              "distances of both signs over many decades, magnifications 0.1..10 (1e-9..1e9 in a tenth of the calls) including exactly 1 and 1 +- 1e-9, output spacing exactly the natural single-FFT spacing. Exploration: "
               "the quantifier is over continuous parameters.")
 LEVEL_NOTE = "Trusted: NumPy. Scalar arguments are Python floats/ints or numpy.float64 (float32 scalars would lower the arithmetic precision)."
 RULE = ("case = (propagator, N, field kind, wavelength, spacings, distance/focal length); non-trivial when the field has non-zero "
@@ -90,6 +90,8 @@ def rand_params(rng):
     z = float(rng.choice([-1, 1]) * 10 ** rng.uniform(-6, 6))
     mclass = rng.integers(0, 6)
     m = [1.0, 1.0 + 1e-9, 1.0 - 1e-9, float(10 ** rng.uniform(-1, 1)), float(10 ** rng.uniform(-1, 1)), 2.0][mclass]
+    if rng.random() < 0.1:
+        m = float(10 ** rng.uniform(-9, 9))              # extreme (de)magnification: the same unitary operators
     zt = rng.integers(0, 4)
     if zt == 1:
         z = np.float64(z)
@@ -111,7 +113,7 @@ def run(ctx, spec):
         if N >= 4 and i % 5 == 3:
             # output spacing exactly the natural single-FFT spacing lambda |z| / (N d1) (the grid the one-step propagator lands on):
             # an exact relation between five arguments that independent draws never hit
-            # (the distance is chosen for a magnification of 0.1 .. 10; for |m| ~ 1e-9 the module's z - z/(1-m) cancels to 1e-8)
+            # (the distance is chosen for a magnification of 0.1 .. 10)
             z = float(np.sign(float(z)) or 1.0) * float(10 ** rng.uniform(-1, 1)) * N * d1 * d1 / wvl
             d2 = wvl * abs(z) / (N * d1)
         nontriv = float(np.abs(U).sum()) > 0
